@@ -16,9 +16,11 @@ Examples: Typical Usage
 from __future__ import annotations
 
 import abc
+import contextlib
 import dataclasses
 import functools
 import inspect
+import sys
 import typing as tp
 
 from typelib import unmarshals
@@ -112,10 +114,25 @@ class BoundRoutine(tp.Generic[P, R]):
         return self.call(*bargs, **bkwargs)
 
 
+def _evaluated_annotations(
+    obj: tp.Callable, params: tp.Mapping[str, inspect.Parameter]
+) -> dict[str, tp.Any]:
+    # Postponed annotations are text which only the module defining the callable can
+    #   resolve, evaluate them there. Whatever can't be evaluated stays as it is.
+    if sys.version_info >= (3, 10) and any(
+        isinstance(p.annotation, str) for p in params.values()
+    ):
+        with contextlib.suppress(Exception):
+            sig = inspect.signature(obj, eval_str=True)
+            return {name: p.annotation for name, p in sig.parameters.items()}
+    return {}
+
+
 @compat.cache
 def _get_binding(obj: tp.Callable) -> AbstractBinding:
     sig = inspection.cached_signature(obj)
     params = sig.parameters
+    evaluated = _evaluated_annotations(obj, params)
     binding: BindingT = {}
     has_pos_only = False
     has_kwd_only = False
@@ -127,7 +144,7 @@ def _get_binding(obj: tp.Callable) -> AbstractBinding:
     varpos: unmarshals.AbstractUnmarshaller | None = None
     for i, (name, param) in enumerate(params.items()):
         unmarshaller: unmarshals.AbstractUnmarshaller = unmarshals.unmarshaller(
-            param.annotation
+            evaluated.get(name, param.annotation)
         )
         binding[i] = unmarshaller
         # Only parameters which may be passed by keyword are bound by name. The name of a
